@@ -912,6 +912,7 @@ func runDataset(ctx context.Context, w *rec.Writer, seed uint64, tier string, id
 				c.allTu = append(c.allTu, row{"", i, t.key()})
 			}
 			runQueries(ctx, c, rec.NewRand(qseed)) // same query choices on both backends
+			faultStream(ctx, c, rec.NewRand(qseed^0xfa17), false)
 		}()
 		w.Stat("datasets_"+backendNames[kind], 1)
 	}
@@ -1206,6 +1207,208 @@ func runWitness(ctx context.Context, w *rec.Writer, seed uint64, tier string) {
 	w.Stat("witness_scenarios", 1)
 }
 
+// ------------------------------------------------------------------------------------------------
+// fault stream (sqlite): the row with a given key cannot be produced -- the table is hidden behind
+// a view whose select-list expression for that row raises "integer overflow" at step time, so
+// rows.Next() stops there with rows.Err() set (second connection to the same file; the code under
+// test is untouched).  Every page request is then repeated: it must fail, or answer exactly as
+// without the fault.
+
+type faultSpec struct{ table, keyCol, faultCol string }
+
+var faultTables = map[int]faultSpec{
+	apiRead:    {"tuple", "ulid", "relation"},
+	apiChanges: {"changelog", "ulid", "relation"},
+	apiStores:  {"store", "id", "name"},
+	apiModels:  {"authorization_model", "authorization_model_id", "schema_version"},
+}
+
+func mustExec(db *sql.DB, q string) {
+	if _, err := db.Exec(q); err != nil {
+		panic(fmt.Errorf("%s: %w", q, err))
+	}
+}
+
+func installFault(db *sql.DB, fs faultSpec, key string) {
+	rows, err := db.Query("SELECT name FROM pragma_table_info('" + fs.table + "')")
+	if err != nil {
+		panic(err)
+	}
+	var cols []string
+	for rows.Next() {
+		var c string
+		if err := rows.Scan(&c); err != nil {
+			panic(err)
+		}
+		if c == fs.faultCol {
+			c = fmt.Sprintf("CASE WHEN %s = '%s' THEN abs(-9223372036854775808) ELSE %s END AS %s", fs.keyCol, key, c, c)
+		}
+		cols = append(cols, c)
+	}
+	rows.Close()
+	if len(cols) == 0 {
+		panic("no columns for " + fs.table)
+	}
+	mustExec(db, "ALTER TABLE "+fs.table+" RENAME TO "+fs.table+"_real")
+	mustExec(db, "CREATE VIEW "+fs.table+" AS SELECT "+strings.Join(cols, ", ")+" FROM "+fs.table+"_real")
+}
+
+func removeFault(db *sql.DB, fs faultSpec) {
+	mustExec(db, "DROP VIEW "+fs.table)
+	mustExec(db, "ALTER TABLE "+fs.table+"_real RENAME TO "+fs.table)
+}
+
+type reqObs struct {
+	ps    int
+	token string
+	clean outcome
+}
+
+func sameOutcome(a, b outcome) bool {
+	if a.code != b.code || a.next != b.next || len(a.items) != len(b.items) {
+		return false
+	}
+	for i := range a.items {
+		if a.items[i] != b.items[i] {
+			return false
+		}
+	}
+	return true
+}
+
+func obsV(uni []row, o outcome) rec.V {
+	var nd []byte
+	if o.code == codePage {
+		nd, _ = decodeWire(o.next)
+	}
+	return rec.L(rec.I(o.code), rec.LI(identIDs(uni, o.items)), rec.B(nd))
+}
+
+func faultStream(ctx context.Context, c *ctxInfo, r *rec.Rand, exhaustive bool) {
+	b, d, w := c.b, c.d, c.w
+	if b.kind != 1 {
+		return
+	}
+	db, err := sql.Open("sqlite", "file:"+b.dbpath+"?_pragma=busy_timeout(5000)")
+	if err != nil {
+		panic(err)
+	}
+	defer db.Close()
+	for api := apiRead; api <= apiModels; api++ {
+		q := query{api: api}
+		var rows []row
+		switch api {
+		case apiRead:
+			rows = readRows(b, d, nil)
+		case apiChanges:
+			rows = changeRows(b, d, "")
+		case apiStores:
+			rows = storeRows(d, "", nil)
+		default:
+			rows = modelRows(d)
+		}
+		n := len(rows)
+		if n == 0 {
+			continue
+		}
+		doc := documented(api, rows)
+		uni := c.universe(q, rows)
+		sizes := []int{1, 2, 3, n, n + 1}
+		if exhaustive {
+			sizes = []int{1, 2, 3, 5, 10}
+		}
+		seen := map[int]bool{}
+		var reqs []reqObs
+		for _, ps := range sizes {
+			if seen[ps] {
+				continue
+			}
+			seen[ps] = true
+			token := ""
+			for step := 0; step <= n+2; step++ {
+				out := call(ctx, b, q, ps, token)
+				reqs = append(reqs, reqObs{ps, token, out})
+				if out.code != codePage || (api == apiChanges && len(out.items) == 0) || (api != apiChanges && out.next == "") {
+					break
+				}
+				token = out.next
+			}
+		}
+		var ks []int
+		if exhaustive || n <= 6 {
+			for k := 0; k < n; k++ {
+				ks = append(ks, k)
+			}
+		} else {
+			ks = []int{0, 1, n / 2, n - 1, r.Intn(n)}
+		}
+		fs := faultTables[api]
+		for _, k := range ks {
+			bad := doc[k].key
+			installFault(db, fs, bad)
+			picked := reqs
+			if !exhaustive && len(reqs) > 16 {
+				picked = nil
+				for i := 0; i < 16; i++ {
+					picked = append(picked, rec.Pick(r, reqs))
+				}
+			}
+			for _, rq := range picked {
+				out := call(ctx, b, q, rq.ps, rq.token)
+				dec, _ := decodeWire(rq.token)
+				w.Case(c.desc("fault", q, rq.ps, map[string]any{"wire": rq.token, "k": k, "n": n}),
+					rec.I(4), rec.I(api), rec.I(rq.ps), rec.S(q.typ), rowsV(rows), rec.B(dec), rec.S(bad),
+					obsV(uni, out), obsV(uni, rq.clean))
+				w.Stat("fault_requests_"+apiNames[api], 1)
+				switch {
+				case out.code != codePage && out.code != codePanic:
+					w.Stat("fault_surfaced_as_error", 1)
+				case sameOutcome(out, rq.clean):
+					w.Stat("fault_not_reached_same_answer", 1)
+				default:
+					w.Stat("fault_deviating_answer", 1)
+					if api != apiChanges {
+						// ReadChanges is left to the oracle, which attributes the listed finding by its computed trigger
+						w.PropFail("a storage fault in the middle of the result set was answered with a page that differs from the fault-free answer and no error (items silently lost)",
+							c.desc("fault", q, rq.ps, map[string]any{"wire": rq.token, "k": k, "n": n, "got_items": len(out.items), "got_token_empty": out.next == "", "want_items": len(rq.clean.items)}))
+					}
+				}
+			}
+			removeFault(db, fs)
+		}
+	}
+}
+
+// runFaultWitness: five tuples / changes / stores / models on sqlite, a fault on every row in turn,
+// page sizes 1,2,3,5,10, every request of the traversal.
+func runFaultWitness(ctx context.Context, w *rec.Writer, seed uint64, tier string) {
+	d := &dataset{idx: -2}
+	r := rec.NewRand(seed ^ 0x5eed)
+	for i := 0; i < 5; i++ {
+		t := tup{"doc:" + strconv.Itoa(i), "viewer", "user:anne"}
+		d.ops = append(d.ops, op{writes: []tup{t}})
+		d.tuples = append(d.tuples, t)
+		d.changes = append(d.changes, change{0, t})
+		d.stores = append(d.stores, idname{ulidFrom(r, 1700000000000+uint64(r.Intn(5000))), "st-alpha"})
+		d.models = append(d.models, ulidFrom(r, 1700000000000+uint64(r.Intn(5000))))
+	}
+	b, err := newSqlite(fmt.Sprintf("s%d-fw-%d", seed, os.Getpid()))
+	if err != nil {
+		panic(err)
+	}
+	defer b.close()
+	if err := load(ctx, b, d); err != nil {
+		panic(err)
+	}
+	c := &ctxInfo{seed: seed, tier: tier, ds: -2, b: b, d: d, w: w}
+	learnUlids(ctx, c)
+	for i, t := range d.tuples {
+		c.allTu = append(c.allTu, row{"", i, t.key()})
+	}
+	faultStream(ctx, c, r, true)
+	w.Stat("fault_witness_scenarios", 1)
+}
+
 func main() {
 	o := rec.ParseFlags()
 	w := rec.NewWriter(o.Out)
@@ -1249,6 +1452,10 @@ func main() {
 				continue
 			}
 			done[k] = true
+			if k.ds == -2 {
+				runFaultWitness(ctx, w, k.seed, tier)
+				continue
+			}
 			if k.ds < 0 {
 				runWitness(ctx, w, k.seed, tier)
 				continue
@@ -1268,6 +1475,7 @@ func main() {
 		return
 	}
 	runWitness(ctx, w, o.Seed, o.Tier)
+	runFaultWitness(ctx, w, o.Seed, o.Tier)
 	r := rec.NewRand(o.Seed)
 	for i := 0; i < o.N; i++ {
 		runDataset(ctx, w, o.Seed, o.Tier, i, r.Fork(), maxItems, maxSmall, -1)
